@@ -26,6 +26,21 @@ import (
 // leaves), left operands of && / ||, loop conditions, `for i := a; …; i++`
 // lower bounds, range keys, x := len(y) style definitions, make/append/reslice
 // lengths. Assignments kill what they may change.
+// IdxSafeSkip: functions decided exactly by another rule (package → function-name prefixes).
+var IdxSafeSkip = map[string][]string{
+	"pkg/token":    {"Pool."}, // pool-typestate (zone domain over off and len(block))
+	"pkg/position": {"Pool."},
+}
+
+func skipped(rel, fn string) bool {
+	for _, pre := range IdxSafeSkip[rel] {
+		if strings.HasPrefix(fn, pre) {
+			return true
+		}
+	}
+	return false
+}
+
 func IdxSafe(p *load.Program, rels []string, reviewed map[string]string) *report.RuleResult {
 	res := report.NewResult("idx-safe")
 	usedReviewed := map[string]bool{}
@@ -64,6 +79,8 @@ func IdxSafe(p *load.Program, rels []string, reviewed map[string]string) *report
 			})
 		}
 		inv.collecting = false
+		shared := &idxShared{calls: map[*types.Func][]idxCallRec{}, valued: map[*types.Func]bool{}}
+		var walkers []*idxWalker
 		generated := map[string]bool{}
 		for _, f := range pk.Syntax {
 			for _, cg := range f.Comments {
@@ -74,12 +91,24 @@ func IdxSafe(p *load.Program, rels []string, reviewed map[string]string) *report
 		}
 		for _, fd := range load.FuncDecls(pk) {
 			file := p.Fset.Position(fd.Pos()).Filename
-			if strings.HasSuffix(file, "_test.go") || (generated[file] && skipGenerated[rel]) {
+			if strings.HasSuffix(file, "_test.go") || (generated[file] && skipGenerated[rel]) || skipped(rel, funcName(fd)) {
 				continue
 			}
-			w := &idxWalker{p: p, info: pk.TypesInfo, pr: scandfa.NewProver(pk.TypesInfo), res: res, rel: rel, fn: funcName(fd), reviewed: reviewed, used: usedReviewed, inv: inv}
+			fnObj, _ := pk.TypesInfo.Defs[fd.Name].(*types.Func)
+			w := &idxWalker{p: p, info: pk.TypesInfo, pr: scandfa.NewProver(pk.TypesInfo), res: res, rel: rel, fn: funcName(fd), reviewed: reviewed, used: usedReviewed, inv: inv, fd: fd, fnObj: fnObj, shared: shared}
 			res.Count("functions", 1)
 			w.stmts(fd.Body.List, nil)
+			walkers = append(walkers, w)
+		}
+		// sites that need what the callers establish about the parameters
+		for _, pd := range shared.pending {
+			if why := pd.viaCallers(shared); why != "" {
+				pd.w.note(pd.key, pd.pos, pd.expr+why)
+			} else {
+				pd.w.note(pd.key, pd.pos, "")
+			}
+		}
+		for _, w := range walkers {
 			w.flush()
 		}
 	}
@@ -118,6 +147,34 @@ type idxWalker struct {
 	verdicts map[string]*idxVerdict
 	order    []string
 	inv      *fieldInv
+	fd       *ast.FuncDecl
+	fnObj    *types.Func
+	shared   *idxShared
+}
+
+// idxShared: what the functions of one package tell each other.
+type idxShared struct {
+	calls   map[*types.Func][]idxCallRec // callee → its call sites in the package
+	valued  map[*types.Func]bool         // used as a value (not only called): callers unknown
+	pending []*idxPending
+}
+
+type idxCallRec struct {
+	w     *idxWalker // the caller's walker (vocabulary)
+	args  []ast.Expr
+	recv  ast.Expr
+	facts []scandfa.Fact
+}
+
+// idxPending: a site whose goals do not follow inside its function but mention only parameters.
+type idxPending struct {
+	w     *idxWalker
+	key   string
+	pos   token.Pos
+	expr  string
+	goals []scandfa.LExpr
+	what  []string
+	facts []scandfa.Fact
 }
 
 type idxVerdict struct {
@@ -919,6 +976,11 @@ func (w *idxWalker) expr(e ast.Expr, facts []scandfa.Fact) {
 		w.expr(x.X, facts)
 	case *ast.SelectorExpr:
 		w.expr(x.X, facts)
+		if w.shared != nil {
+			if fn, ok := w.info.Uses[x.Sel].(*types.Func); ok {
+				w.shared.valued[fn] = true
+			}
+		}
 	case *ast.TypeAssertExpr:
 		w.expr(x.X, facts)
 	case *ast.KeyValueExpr:
@@ -929,9 +991,36 @@ func (w *idxWalker) expr(e ast.Expr, facts []scandfa.Fact) {
 			w.expr(el, facts)
 		}
 	case *ast.CallExpr:
-		w.expr(x.Fun, facts)
+		switch f := unparenE(x.Fun).(type) {
+		case *ast.Ident:
+			// a direct call: not a use of the function as a value
+		case *ast.SelectorExpr:
+			w.expr(f.X, facts)
+		default:
+			w.expr(x.Fun, facts)
+		}
 		for _, a := range x.Args {
 			w.expr(a, facts)
+		}
+		if w.shared != nil {
+			var callee *types.Func
+			var recv ast.Expr
+			switch f := unparenE(x.Fun).(type) {
+			case *ast.Ident:
+				callee, _ = w.info.Uses[f].(*types.Func)
+			case *ast.SelectorExpr:
+				callee, _ = w.info.Uses[f.Sel].(*types.Func)
+				recv = f.X
+			}
+			if callee != nil && !x.Ellipsis.IsValid() {
+				w.shared.calls[callee] = append(w.shared.calls[callee], idxCallRec{w: w, args: x.Args, recv: recv, facts: cloneFacts(facts)})
+			}
+		}
+	case *ast.Ident:
+		if w.shared != nil {
+			if fn, ok := w.info.Uses[x].(*types.Func); ok {
+				w.shared.valued[fn] = true // corrected below for call positions
+			}
 		}
 	case *ast.FuncLit:
 		w.stmts(x.Body.List, nil)
@@ -1078,5 +1167,176 @@ func (w *idxWalker) site(n ast.Expr, facts []scandfa.Fact) {
 		w.note(key, n.Pos(), "")
 		return
 	}
-	w.note(key, n.Pos(), fmt.Sprintf("%s can be out of range: not implied by the conditions that dominate it: %s", types.ExprString(n), strings.Join(missing, ", ")))
+	msg := fmt.Sprintf("%s can be out of range: not implied by the conditions that dominate it: %s", types.ExprString(n), strings.Join(missing, ", "))
+	if w.shared != nil && w.fnObj != nil {
+		pd := &idxPending{w: w, key: key, pos: n.Pos(), expr: msg, facts: fs}
+		for _, g := range goals {
+			if !scandfa.Entails(g.g, fs) {
+				pd.goals = append(pd.goals, g.g)
+				pd.what = append(pd.what, g.what)
+			}
+		}
+		w.shared.pending = append(w.shared.pending, pd)
+		return
+	}
+	w.note(key, n.Pos(), msg)
+}
+
+
+// viaCallers: the missing goals of a site mention only parameters of its
+// function (p, len(p), cap(p)) which the function never assigns; they hold if
+// every call of the function in the package establishes them for the arguments
+// (together with what the function itself knows about its parameters at the
+// site). Returns "" when proved, otherwise the reason.
+func (pd *idxPending) viaCallers(sh *idxShared) string {
+	w := pd.w
+	fn := w.fnObj
+	if fn == nil || w.fd == nil {
+		return " "
+	}
+	if fn.Exported() {
+		recvExported := true
+		if w.fd.Recv != nil && len(w.fd.Recv.List) == 1 {
+			t := w.fd.Recv.List[0].Type
+			if se, ok := t.(*ast.StarExpr); ok {
+				t = se.X
+			}
+			if id, ok := t.(*ast.Ident); ok {
+				recvExported = ast.IsExported(id.Name)
+			}
+		}
+		if recvExported {
+			return "; the function is exported, so its callers are not all known"
+		}
+	}
+	if sh.valued[fn] {
+		return "; the function is also used as a value, so its callers are not all known"
+	}
+	calls := sh.calls[fn]
+	if len(calls) == 0 {
+		return "; no call of the function in the package establishes the bound"
+	}
+	// parameters
+	type param struct {
+		i       int
+		isSlice bool
+	}
+	params := map[string]param{}
+	i := 0
+	for _, f := range w.fd.Type.Params.List {
+		for _, nm := range f.Names {
+			_, isSlice := w.info.TypeOf(f.Type).Underlying().(*types.Slice)
+			if b, ok := w.info.TypeOf(f.Type).Underlying().(*types.Basic); ok && b.Info()&types.IsString != 0 {
+				isSlice = true
+			}
+			if _, variadic := f.Type.(*ast.Ellipsis); variadic {
+				i++
+				continue
+			}
+			params[nm.Name] = param{i, isSlice}
+			i++
+		}
+		if len(f.Names) == 0 {
+			i++
+		}
+	}
+	assigned := w.assigned(w.fd.Body)
+	paramTerm := func(t string) (string, string, bool) { // kind ("", "len", "cap"), name
+		for _, k := range []string{"len", "cap"} {
+			if strings.HasPrefix(t, k+"(") && strings.HasSuffix(t, ")") {
+				nm := t[len(k)+1 : len(t)-1]
+				if pp, ok := params[nm]; ok && pp.isSlice && !contains(assigned, nm) {
+					return k, nm, true
+				}
+				return "", "", false
+			}
+		}
+		if pp, ok := params[t]; ok && !pp.isSlice && !contains(assigned, t) {
+			return "", t, true
+		}
+		return "", "", false
+	}
+	onlyParams := func(e scandfa.LExpr) bool {
+		for t := range e.T {
+			if _, _, ok := paramTerm(t); !ok {
+				return false
+			}
+		}
+		return true
+	}
+	for _, g := range pd.goals {
+		if !onlyParams(g) {
+			return " " // not a matter of the callers: the report stands as it is
+		}
+	}
+	for _, c := range calls {
+		cw := c.w
+		subst := func(e scandfa.LExpr) (scandfa.LExpr, bool) {
+			out := scandfa.Const(e.K)
+			for t, coef := range e.T {
+				kind, nm, _ := paramTerm(t)
+				pp := params[nm]
+				if pp.i >= len(c.args) {
+					return out, false
+				}
+				arg := c.args[pp.i]
+				var v scandfa.LExpr
+				switch kind {
+				case "len":
+					v = cw.lenOf(arg)
+				case "cap":
+					v = scandfa.TermExpr("cap(" + cw.pr.Term(arg) + ")")
+				default:
+					l, ok := cw.pr.Lin(arg)
+					if !ok {
+						return out, false
+					}
+					v = l
+				}
+				for n := 0; n < coef; n++ {
+					out = out.Plus(v)
+				}
+				for n := 0; n > coef; n-- {
+					out = out.Minus(v)
+				}
+			}
+			return out, true
+		}
+		fs := cloneFacts(c.facts)
+		// what the callee itself knows about its parameters at the site, in the caller's vocabulary
+		for _, f := range pd.facts {
+			if onlyParams(f.E) && len(f.E.T) > 0 {
+				if e, ok := subst(f.E); ok {
+					fs = append(fs, scandfa.Fact{E: e, Ne: f.Ne})
+				}
+			}
+		}
+		for gi, g := range pd.goals {
+			g2, ok := subst(g)
+			if !ok {
+				return fmt.Sprintf("; the call at %s passes an argument the prover cannot express", cw.p.Pos(c.args[0].Pos()))
+			}
+			all := cloneFacts(fs)
+			for t := range g2.T {
+				if strings.HasPrefix(t, "len(") || strings.HasPrefix(t, "cap(") {
+					all = append(all, scandfa.Fact{E: scandfa.TermExpr(t)})
+				}
+			}
+			for _, f := range fs {
+				for t := range f.E.T {
+					if strings.HasPrefix(t, "len(") || strings.HasPrefix(t, "cap(") {
+						all = append(all, scandfa.Fact{E: scandfa.TermExpr(t)})
+					}
+				}
+			}
+			if !scandfa.Entails(g2, all) {
+				where := "-"
+				if len(c.args) > 0 {
+					where = cw.p.Pos(c.args[0].Pos())
+				}
+				return fmt.Sprintf("; the call in %s (%s) does not establish %s for its arguments", cw.fn, where, pd.what[gi])
+			}
+		}
+	}
+	return ""
 }
